@@ -5,11 +5,20 @@ namespace O2P.Expect.C20
 open O2P.Facts
 
 theorem sharedAccesses_ok : sharedAccesses = ([
+  "createHtpasswdMap|users[]|read|none|private",
+  "createHtpasswdMap|users|read|none|private",
+  "htpasswdMap.GetUsers|users[]|read|W|plain",
   "htpasswdMap.GetUsers|users|read|W|plain",
+  "htpasswdMap.Validate|users[]|read|R|plain",
   "htpasswdMap.Validate|users|read|R|plain",
   "htpasswdMap.loadHTPasswdFile|users|write|W|plain",
+  "htpasswdMap.loadHTPasswdFile|users|read|none|private",
+  "passShaOrBcrypt|users[]|write|none|private",
+  "passShaOrBcrypt|users|read|none|private",
   "NewUserMap|m|write|none|atomic",
   "UserMap.IsValid|m|read|none|atomic",
+  "UserMap.IsValid|m[]|read|none|plain",
+  "UserMap.LoadAuthenticatedEmailsFile|m[]|write|none|private",
   "UserMap.LoadAuthenticatedEmailsFile|m|write|none|atomic"] : List String) := rfl
 
 theorem skel_htpasswdMap_loadHTPasswdFile_ok : skel_htpasswdMap_loadHTPasswdFile = ([
